@@ -47,7 +47,7 @@ PROBES = [
     "optional_present", "optional_absent", "optional_array_absent", "negative_fixed_string_length",
     "unknown_enum_ordinal", "switch_default", "switch_no_case", "switch_case", "dummy_read", "dummy_skipped",
     "array_partial_trailing_element_ignored", "documented_value_error", "step_cap", "serialize_failed_value_skipped",
-    "tree_rejected",
+    "tree_rejected", "warnings_as_errors",
 ]
 
 
@@ -95,6 +95,7 @@ def generate(streams, tier):
         "values_per_class": 2 if tier == "quick" else 4,
         "stacked_per_message": 12 if tier == "quick" else 40,
         "random_per_class": 6 if tier == "quick" else 20,
+        "warnings_as_errors": prng.random() < 0.15,
     }
 
 
@@ -315,6 +316,19 @@ class Runner:
 
 
 def execute(plan, env):
+    import warnings
+    with warnings.catch_warnings():
+        if plan.get("warnings_as_errors"):
+            warnings.simplefilter("error")
+            warnings.simplefilter("default", DeprecationWarning)
+            warnings.simplefilter("default", PendingDeprecationWarning)
+        res = _execute(plan, env)
+        if plan.get("warnings_as_errors"):
+            res.count("probe.warnings_as_errors")
+        return res
+
+
+def _execute(plan, env):
     res = Result()
     res.evaluations = 0
     tr = Trace(keep=env.keep_trace)
